@@ -184,6 +184,17 @@ def base_scenarios():
         other=True,
     )
     mk(
+        # a second request on the same (endpoint, token) while the first is still being rendered replaces it
+        # (RFC 7641 re-registration, clients using the empty token); then a third
+        "same-token-override",
+        [
+            {"at": 10, "do": "rx", "r": 1, "ty": "CON", "code": 1, "mid": 77, "tok": "c1", "path": ["h", "1"]},
+            {"at": 400, "do": "rx", "r": 1, "ty": "CON", "code": 1, "mid": 78, "tok": "c1", "path": ["h", "1"]},
+            {"at": 800, "do": "rx", "r": 1, "ty": "NON", "code": 1, "mid": 79, "tok": "c1", "path": ["h", "2"]},
+        ],
+        handlers={"1": {"delay": 3000, "outcome": "ok"}, "2": {"delay": 3000, "outcome": "ok"}},
+    )
+    mk(
         "mid-blockwise-upload",
         [{"at": 0, "do": "submit", "q": 1, "r": 1, "con": True, "code": 3, "payload_len": 3000, "blockwise": True, "f": 0.5}],
         autoreply=[{"match": {"b1more": 1}, "code": 95, "echo_b1": True, "delay": 300, "max": 2}],
